@@ -186,3 +186,47 @@ def prefix_topics(maxseq=2, **kw):
 
 
 ALL.update(join_late=join_late, prefix_topics=prefix_topics)
+
+
+def tee_rejoin_multi(maxseq=4, **kw):
+    """tee-rejoin whose branch A carries a topic set that varies per id (main+b / main); branch B skips ids"""
+    return Topo('TeeRejoinMulti', {
+        'S': dict(nout=1, beh=beh('origin', tseq=[['main', 'b'], ['main', 'b'], ['main']])),
+        'A': dict(srcs=[src('S')], nout=1),
+        'B': dict(srcs=[src('S', topics=[('main', 'main')])], nout=1, beh=beh('relay', skip=(1, 3))),
+        'K': dict(srcs=[src('A'), src('B', topics=[('main', 'x')])]),
+    }, maxseq=maxseq, **kw)
+
+
+def tee_rejoin_relay(maxseq=3, skipA=(0,), slowB=True, **kw):
+    """the rejoin K is a relay (it has outputs and a consumer Z): recv() is called with the sender's state"""
+    return Topo('TeeRejoinRelay', {
+        'S': dict(nout=1, beh=beh('origin', tseq=[['main']])),
+        'A': dict(srcs=[src('S')], nout=1, beh=beh('relay', skip=skipA)),
+        'B': dict(srcs=[src('S')], nout=1, beh=beh('relay', slow=slowB)),
+        'K': dict(srcs=[src('A', topics=[('main', 'a')]), src('B', topics=[('main', 'main')])], nout=1),
+        'Z': dict(srcs=[src('K')]),
+    }, maxseq=maxseq, **kw)
+
+
+def tee_names(maxseq=4, **kw):
+    """two required consumers whose ids are prefixes of one another (K, K2)"""
+    return Topo('TeeNames', {
+        'S': dict(nout=1, required=['K', 'K2'], beh=beh('origin', tseq=[['main']])),
+        'K2': dict(srcs=[src('S')]),
+        'K': dict(srcs=[src('S')]),
+    }, maxseq=maxseq, **kw)
+
+
+def tee_rejoin_absent(maxseq=5, **kw):
+    """rejoin where one branch's subscribed topic is absent on odd frames (its set is completed by the topics message alone)
+    and the other branch is slower than a request interval"""
+    return Topo('TeeRejoinAbsent', {
+        'S': dict(nout=1, beh=beh('origin', tseq=[['main', 'b'], ['main']])),
+        'A': dict(srcs=[src('S', topics=[('main', 'main')])], nout=1, beh=beh('relay', slow=True)),
+        'B': dict(srcs=[src('S')], nout=1),
+        'K': dict(srcs=[src('A', topics=[('main', 'a')]), src('B', topics=[('b', 'dets')])]),
+    }, maxseq=maxseq, **kw)
+
+
+ALL.update(tee_rejoin_multi=tee_rejoin_multi, tee_rejoin_relay=tee_rejoin_relay, tee_names=tee_names, tee_rejoin_absent=tee_rejoin_absent)
